@@ -23,8 +23,9 @@ class Src:
         self.end_at = {}
         for k, i in enumerate(self.toks):
             it = items[i]
-            self.start_at[(it[3], it[4])] = k
-            self.end_at[(it[5], it[6])] = k
+            self.start_at.setdefault((it[3], it[4]), k)
+            if it[1] > 0 or (it[5], it[6]) not in self.end_at:   # the empty EOF token never hides a real one
+                self.end_at[(it[5], it[6])] = k
         self._decl_levels()
         self._gaps()
 
@@ -550,7 +551,7 @@ option java_package = "x.y";
 extend google.protobuf.MessageOptions { optional Lit mo = 50001; repeated int32 ri = 50002; optional string so = 50003; }
 extend google.protobuf.FieldOptions { optional Lit fo = 50001; }
 message Lit { optional int32 a = 1; repeated string s = 2; optional Lit n = 3; repeated Lit rn = 4; map<string, int32> m = 5; }
-message M {
+message M { ;
   option (mo) = { a: 1 s: "x" s: "y" n { a: 2 rn: [{a: 3}, {a: 4 s: ["p", "q"]}] } m { key: "k" value: 7 } };
   option (ri) = 1; option (ri) = 2;
   option (so) = "abc" "def";
@@ -562,14 +563,15 @@ message M {
   oneof o { string o1 = 5; group OG = 6 { optional bool og1 = 1; } int64 o2 = 7 [deprecated = true]; }
   map<int32, Lit> mp = 8;
   extensions 100 to 199, 300 to max [(eo) = 1];
-  extensions 1000;
-  reserved 20, 30 to 40, 50 to max;
+  extensions 200;
+  reserved 20, 30 to 40, 50 to 60;
   reserved "r1", "r2";
   message N { enum E { option allow_alias = true; Z = 0; Y = 0 [deprecated = true]; X = -1; reserved 5 to 9; reserved "Q"; } optional E e = 1 [default = X]; }
   extend M { optional N xn = 150; optional group XG = 151 { optional int32 q = 1; } }
 }
 extend google.protobuf.ExtensionRangeOptions { optional int32 eo = 50001; }
-enum Top { T0 = 0; T1 = 1; }
+enum Top { T0 = 0; ; T1 = 1; }
+;
 service S {
   option deprecated = true;
   rpc A (M) returns (M.N);
@@ -610,3 +612,125 @@ def testdata_sources(repo):
         if os.path.exists(p):
             out.append((f, open(p, "rb").read()))
     return out
+
+
+# ---------------------------------------------------------------- C23: well-formedness oracles on the implementation
+def line_widths(data, lines):
+    """display width (columns, 0-based exclusive end) of every line per ast.FileInfo.SourcePos: tab stops of 8,
+    one column per UTF-8 start byte; lines = the lexer's line table"""
+    out = []
+    for i, st in enumerate(lines):
+        en = lines[i + 1] if i + 1 < len(lines) else len(data)
+        col = 0
+        for b in data[st:en]:
+            if b == 9:
+                col += 8 - col % 8
+            elif (b & 0xC0) != 0x80:
+                col += 1
+        out.append(col)
+    return out
+
+
+def span_problem(span, widths):
+    if len(span) not in (3, 4):
+        return "span has %d elements" % len(span)
+    if any(x < 0 for x in span):
+        return "negative span element"
+    sl, sc = span[0], span[1]
+    el, ec = (span[0], span[2]) if len(span) == 3 else (span[2], span[3])
+    if (el, ec) < (sl, sc):
+        return "span end (%d,%d) before start (%d,%d)" % (el, ec, sl, sc)
+    if sl >= len(widths) or el >= len(widths):
+        return "span line outside the file (%d lines)" % len(widths)
+    if sc > widths[sl] or ec > widths[el]:
+        return "span column outside its line"
+    return None
+
+
+def derivable_comments(src, ctext=go_ctext):
+    """every text that combineComments can produce from a run of consecutive comments inside one gap"""
+    out = set()
+    for g in src.gaps:
+        us = [u for u in _units(g["items"], g["nxt"]) if u[0] != "N"]
+        for i in range(len(us)):
+            acc = b""
+            for j in range(i, len(us)):
+                acc += ctext(*us[j])
+                out.add(acc)
+    return out
+
+
+def is_prefix(p, q):
+    return len(p) <= len(q) and q[:len(p)] == p
+
+
+def span_key(s):
+    return (s[0], s[1], s[0], s[2]) if len(s) == 3 else tuple(s)
+
+
+def span_within(inner, outer):
+    a, b = span_key(inner), span_key(outer)
+    return (b[0], b[1]) <= (a[0], a[1]) and (a[2], a[3]) <= (b[2], b[3])
+
+
+def c23_oracle(src, out, lines):
+    """-> list of (key, what, detail) property failures on one compiled source (all four modes)"""
+    fails = []
+    widths = line_widths(src.data, lines)
+    deriv = derivable_comments(src)
+    locs = out["locs"]
+    for mode in ("1", "2", "4", "6"):
+        for i, loc in enumerate(locs[mode]):
+            why = span_problem(loc["s"], widths)
+            if why:
+                fails.append(("span-malformed", why, dict(mode=mode, index=i, loc=loc)))
+            for fld in ("l", "t"):
+                if loc[fld] is not None and bytes.fromhex(loc[fld]) not in deriv:
+                    fails.append(("comment-not-source-text", "%s comment is not a combination of source comments" % fld,
+                                  dict(mode=mode, index=i, loc=loc)))
+            for d in loc["d"]:
+                if bytes.fromhex(d) not in deriv:
+                    fails.append(("comment-not-source-text", "detached comment is not a combination of source comments",
+                                  dict(mode=mode, index=i, loc=loc)))
+        for i, why in out["badpaths"][mode]:
+            fails.append(("path-names-no-element", why, dict(mode=mode, index=i, loc=locs[mode][i])))
+    # extra comments: same locations, comments only added
+    for std, ext in (("1", "2"), ("4", "6")):
+        a, b = locs[std], locs[ext]
+        if [(l["p"], l["s"]) for l in a] != [(l["p"], l["s"]) for l in b]:
+            k = next((i for i in range(min(len(a), len(b))) if (a[i]["p"], a[i]["s"]) != (b[i]["p"], b[i]["s"])), min(len(a), len(b)))
+            fails.append(("extra-comments-changes-locations", "modes %s and %s differ in paths/spans at index %d (%d vs %d locations)" % (std, ext, k, len(a), len(b)),
+                          dict(std=a[k] if k < len(a) else None, ext=b[k] if k < len(b) else None)))
+            continue
+        for i, (x, y) in enumerate(zip(a, b)):
+            for fld in ("l", "t"):
+                if x[fld] is not None and y[fld] != x[fld]:
+                    fails.append(("extra-comments-drops-comment", "%s comment of mode %s missing or changed in mode %s" % (fld, std, ext),
+                                  dict(index=i, std=x, ext=y)))
+            if x["d"] and y["d"] != x["d"]:
+                fails.append(("extra-comments-drops-comment", "detached comments of mode %s missing or changed in mode %s" % (std, ext),
+                              dict(index=i, std=x, ext=y)))
+    # extra option locations: only adds, and only inside option values
+    for std, ext in (("1", "4"), ("2", "6")):
+        a, b = locs[std], locs[ext]
+        j = 0
+        added = []
+        for y in b:
+            if j < len(a) and all(a[j][f] == y[f] for f in ("p", "s", "l", "t", "d")):
+                j += 1
+            else:
+                added.append(y)
+        if j < len(a):
+            fails.append(("extra-option-locations-loses-location", "location %d of mode %s is not in mode %s (in order)" % (j, std, ext),
+                          dict(std=a[j])))
+            continue
+        for y in added:
+            o = y.get("o", -1)
+            ok = o >= 0 and len(y["p"]) >= o + 3
+            if ok:
+                ok = any(is_prefix(x["p"], y["p"]) and len(x["p"]) >= o + 2 and len(x["p"]) < len(y["p"]) + (1 if x["p"][:-1] == y["p"][:-1] else 0)
+                         and span_within(y["s"], x["s"]) for x in a if x.get("o", -1) == o) or \
+                     any(x["p"][:-1] == y["p"][:-1] and len(x["p"]) >= o + 2 and span_within(y["s"], x["s"]) for x in a if x.get("o", -1) == o)
+            if not ok:
+                fails.append(("extra-option-location-outside-option-value", "added location is not inside an option value", dict(ext=y)))
+    return fails
